@@ -43,7 +43,40 @@ def entries(tier):
   return es
 
 
+def undeclared_overlap(chk):
+  """Producer count not declared (IterQueue.tla: DeclaredMax = 0, maxenq = Max(maxenq, start + 1)): producers that overlap
+  in a chain - p2 runs, p1 starts and finishes, p3 starts and finishes, p2 finishes - never have start = stop before the
+  end, so the stream may not end early and must end once p2 is through.  One thread: p2's source drives p1 and p3."""
+  from ml_metrics._src.utils import iter_utils
+  for cap in (0, 8):
+    q = iter_utils.IteratorQueue(cap, timeout=0.5)
+
+    def p2_source():
+      q.enqueue_from_iterator(iter(['a1']))        # p1 starts and finishes while p2 is running
+      yield 'b1'
+      q.enqueue_from_iterator(iter(['c1']))        # p3 starts and finishes while p2 is running
+      yield 'b2'
+
+    ctx = dict(kind='queue-undeclared-overlap', cap=cap)
+    try:
+      q.enqueue_from_iterator(p2_source())
+      got = []
+      while True:
+        try:
+          got.append(q.get())
+        except StopIteration:
+          break
+    except Exception as e:  # pylint: disable=broad-exception-caught
+      chk.violation(f'undeclared-overlap:{type(e).__name__}', f'IteratorQueue({cap}) without max_enqueuer, producers p2[p1][p3] overlapping in a chain: {e!r} '
+                    f'(start={q._enqueue_start} stop={q._enqueue_stop} max_enqueuer={q._max_enqueuer})', ctx)
+      continue
+    chk.replayed()
+    if got != ['a1', 'b1', 'c1', 'b2']:
+      chk.violation('undeclared-overlap:elements', f'IteratorQueue({cap}): got {got}', ctx)
+
+
 def body(chk):
+  undeclared_overlap(chk)
   qprops.run(chk, entries(chk.tier),
              negative=[('1x1 batch2 block cap1',
                         P(prods={'p1': (3, 0)}, cons={'c1': ('batch', 2, True)}, cap=1), 'deadlock')])
@@ -51,7 +84,7 @@ def body(chk):
       'enqueue_done is read as one atomic snapshot; segments between scheduler yield points are atomic (mover argument, DESIGN 3.4)',
       'harness iterators stand in for user generators; consumers use get / get_batch / iteration only',
       'Condition.notify wakes waiters in FIFO order (CPython); the spec uses the same order',
-      'a queue created without max_enqueuer may end early by construction (documented); judged in declared form only',
+      'a queue created without max_enqueuer may end early by construction (documented); judged in declared form only, plus one overlap order in which it may not',
   ]
 
 
